@@ -21,6 +21,9 @@
 **
 ** Nothing here enters a verdict by address value: only membership in ranges that the
 ** harness derived from the objects of the case.
+**
+** Also kept: the byte count of recent malloc/calloc/realloc requests by address (al_requested), and an optional
+** forced-reuse stash (al_arm_reuse) for histories in which a freed block must be the one the next request receives.
 */
 
 #ifndef VF_ALLOC_H
@@ -61,8 +64,84 @@ static void al_note_new(void* p) {
   if (al_nnew < AL_MAXNEW) al_new[al_nnew++] = p;
 }
 
-void* __wrap_malloc(size_t n) { void* p = __real_malloc(n); al_note_new(p); return p; }
-void* __wrap_calloc(size_t a, size_t b) { void* p = __real_calloc(a, b); al_note_new(p); return p; }
+/*
+** Requested sizes: the byte count of the last AL_RING malloc/calloc requests by address (newest wins), whether a window is
+** open or not.  "Does the block the library asked for cover header + size(type)?" is answered from here, not from what the
+** allocator happened to round the request up to.
+*/
+#define AL_RING 512
+static struct { char* p; size_t n; } al_ring[AL_RING];
+static unsigned al_ringpos;
+static void al_ring_note(void* p, size_t n) { if (p) { al_ring[al_ringpos % AL_RING].p = p; al_ring[al_ringpos % AL_RING].n = n; al_ringpos++; } }
+static int al_requested(void* p, size_t* n) {
+  for (unsigned k = 0; k < AL_RING && k < al_ringpos; k++) {
+    unsigned i = (al_ringpos - 1 - k) % AL_RING;
+    if (al_ring[i].p == (char*)p) { *n = al_ring[i].n; return 1; }
+  }
+  return 0;
+}
+
+/*
+** Forced address reuse (an allocator policy, simulated): a block that was *armed* is not given back to the real allocator
+** when the library frees it but kept in a small stash; the next calloc/malloc request of exactly the same byte count is
+** answered with a stashed block (zeroed for calloc) - the most recently freed one (policy 0, what a LIFO free list does)
+** or the least recently freed one (policy 1).  That is what "malloc hands the block straight back" looks like, made
+** independent of the allocator the harness happens to be linked with (glibc bins, the sanitizer's quarantine).
+*/
+#define AL_STASH 4
+static char* al_armed[AL_STASH]; static int al_narmed;
+static struct { char* p; size_t n; } al_stash[AL_STASH]; static int al_nstash;
+static int al_stash_policy;
+static uint64_t al_reuse_forced;
+
+static void al_arm_reuse(void* p) { if (p && al_narmed < AL_STASH) al_armed[al_narmed++] = p; }
+static int al_stash_take_freed(char* p) {
+  for (int i = 0; i < al_narmed; i++) if (al_armed[i] == p) {
+    size_t n;
+    al_armed[i] = al_armed[--al_narmed];
+    if (al_nstash >= AL_STASH || !al_requested(p, &n)) return 0;
+    al_stash[al_nstash].p = p; al_stash[al_nstash].n = n; al_nstash++;
+    return 1;
+  }
+  return 0;
+}
+static void* al_stash_give(size_t n, int zero) {
+  for (int k = 0; k < al_nstash; k++) {
+    int i = al_stash_policy ? k : al_nstash - 1 - k;
+    if (al_stash[i].n != n) continue;
+    char* p = al_stash[i].p;
+    for (int j = i; j < al_nstash - 1; j++) al_stash[j] = al_stash[j + 1];
+    al_nstash--;
+    if (zero) memset(p, 0, n);
+    al_reuse_forced++;
+    return p;
+  }
+  return NULL;
+}
+/* end of a case: nothing stays armed, blocks nobody asked for again go back to the allocator */
+static void al_reuse_reset(void) {
+  al_narmed = 0;
+  while (al_nstash > 0) __real_free(al_stash[--al_nstash].p);
+}
+
+/*
+** Slack (gcc build of part=recycle only): every block is really al_pad bytes longer than requested.  A library that asks for
+** too few bytes and then writes size(type) bytes is convicted from the REQUESTED count (al_requested); the slack only keeps
+** its overrun from destroying the allocator's own bookkeeping, so that the exploration can go on and report every case.
+** The sanitizer build runs without slack and sees the overrun itself.
+*/
+static size_t al_pad;
+
+void* __wrap_malloc(size_t n) {
+  void* p = al_nstash ? al_stash_give(n, 0) : NULL;
+  if (!p) p = __real_malloc(n + al_pad);
+  al_ring_note(p, n); al_note_new(p); return p;
+}
+void* __wrap_calloc(size_t a, size_t b) {
+  void* p = al_nstash ? al_stash_give(a * b, 1) : NULL;
+  if (!p) p = al_pad ? __real_calloc(1, a * b + al_pad) : __real_calloc(a, b);
+  al_ring_note(p, a * b); al_note_new(p); return p;
+}
 
 /* returns the forbidden range p lies in (or NULL) */
 static struct al_range* al_note_ptr(char* p, int kind) {
@@ -87,6 +166,7 @@ void __wrap_free(void* p_) {
   al_total_free++;
   /* a pointer into a stack / static / embedded object: recorded (hard violation), never really freed, so that the run goes on */
   if (al_note_ptr(p, 0)) return;
+  if (al_narmed && p && al_stash_take_freed(p)) return;
 #ifndef VF_ASAN
   if (al_open && p) {
     for (int i = 0; i < al_nquar; i++) if (al_quar[i] == p) return;        /* second free: counted, not executed */
@@ -108,8 +188,9 @@ void* __wrap_realloc(void* p_, size_t n) {
     if (q) memcpy(q, p_, have < n ? have : n);
     return q;
   }
-  void* q = __real_realloc(p_, n);
+  void* q = __real_realloc(p_, n + al_pad);
   if (q != p_) al_note_new(q);
+  al_ring_note(q, n);
   return q;
 }
 
